@@ -266,8 +266,8 @@ Proof. vm_compute. reflexivity. Qed.
 
 (* the contrast, with its witness: a serializer that takes the separator from the shared cell is
    correct as long as the cell holds the caller's own separator (single-threaded use), and wrong
-   as soon as another thread's localeconv() got in between: the comma thread prints "1,5.0", the C
-   thread appends a spurious ".0" to "1e-07"-like texts or leaves ... *)
+   as soon as another thread's localeconv() got in between: the comma thread then prints "1,5.0"
+   and "3,14.0" (its comma survives, and ".0" is appended because no point was found) *)
 Example cell_variant_interference :
   double_text_cell CH_COMMA true false [49; 44; 53] = [49; 46; 53] /\
   double_text_cell CH_DOT true false [49; 46; 53] = [49; 46; 53] /\
